@@ -90,6 +90,21 @@ class Check:
                 with open(path, "w") as f:
                     f.write(new)
             self.coverage["facts_regenerated"] = new.count("\ndef ")
+            # tie G: the translated Go functions (Generated/Code.lean)
+            p = subprocess.run([exe, REPO, "code"], stdout=subprocess.PIPE, stderr=subprocess.PIPE)
+            if p.returncode != 0:
+                self.failures.append(Failure("translation", "the Go-to-Lean translation of the modelled functions failed "
+                                             "(the source left the translated subset or a translated function disappeared)",
+                                             p.stderr.decode()))
+                return False
+            new = p.stdout.decode()
+            path = f"{LEAN}/DtailModel/Generated/Code.lean"
+            old = open(path).read() if os.path.exists(path) else ""
+            if new != old:
+                self.notes.append("translated code changed")
+                with open(path, "w") as f:
+                    f.write(new)
+            self.coverage["functions_translated"] = new.count("\ndef ") - new.count(" : AggregateOperation := ")
             return True
 
     # ---------------------------------------------------------------- P
